@@ -14,7 +14,7 @@ CHECKS = {
          NOTE_COMMON, 'CBMC pointer/bounds/assigns obligations under exact-extent preconditions'),
  'C04': ('proof', 'Each initialiser (current and legacy) is enforced against the canonical image computed from the oracle constants, byte by byte, for arbitrary prior contents and symbolic trailing slack that the frame clause excludes; setters called inside are replaced by their contracts.', '§4.3 §5 C04',
          NOTE_COMMON, 'CBMC code contracts, modular (setters replaced by contracts)'),
- 'C05': ('proof', 'Every write operation is proved to implement the record transition on the whole header (C02 contracts), and the record algebra (read-after-write, independence of disjoint fields, commutation, idempotence, last-write-wins) is proved over the reference semantics for all ranges; the induction over histories is the standard argument and is not mechanised.', '§5 C05',
+ 'C05': ('proof', 'Every write operation and every initialiser (current and legacy) is proved to implement the record transition on the whole header (C02 / C04 contracts), and the record algebra (read-after-write, independence of disjoint fields, commutation, idempotence, last-write-wins) is proved over the reference semantics for all ranges; the induction over histories is the standard argument and is not mechanised.', '§5 C05',
          NOTE_COMMON + 'Induction over operation histories is by hand.', 'whole-view contracts + meta-lemmas over the reference semantics'),
  'C11': ('proof', 'NULL-PDU and out-of-range-identifier variants of every accessor/initialiser contract (assigns nothing, readers return 0) and the EINVAL contracts of the legacy wrappers, for all 2^32 identifiers of the current API.', '§5 C11',
          NOTE_COMMON, 'CBMC code contracts: inactive/NULL contract variants'),
@@ -34,11 +34,11 @@ CHECKS = {
  'C17': ('proof', 'Shared fields are single oracle rows; per pair (canonical view, other view) a client lemma proves read-identically, write-through-one/read-through-other in both directions for every shared field, with all four accessors replaced by their contracts.', '§5 C17',
          NOTE_COMMON, 'client lemmas over generated contracts'),
 
- 'C07': ('proof', 'Avtp_Vss_SetVssPath and, per datatype code, Avtp_Vss_SetVssData are enforced against the reference encoding of acf-vss.md (big-endian integers, IEEE-754 bit patterns compared as integers, 16-bit big-endian byte-length prefix, element order; ghost element index), for both address modes plus reserved modes/datatypes (nothing written), path lengths up to 65533 and value lengths up to 65535 bytes, exact-extent buffers with symbolic slack; array loops are closed by loop contracts; quick tier covers 11 representative codes, thorough all 24 + 4 reserved.', '§4.4 §5 C07',
+ 'C07': ('proof', 'Avtp_Vss_SetVssPath and, per datatype code, Avtp_Vss_SetVssData are enforced against the reference encoding of acf-vss.md (big-endian integers, IEEE-754 bit patterns compared as integers, 16-bit big-endian byte-length prefix, element order; ghost element index), for both address modes plus reserved modes/datatypes (nothing written), path lengths up to 65533 and value lengths up to 65535 bytes, exact-extent buffers with symbolic slack; array loops are closed by loop contracts; quick tier covers 11 representative codes, thorough all 24 + 4 reserved. If a loop was rewritten so that its loop contract no longer attaches, the obligation falls back to a BOUNDED run (values of at most 4 elements plus a probe at the top of the 16-bit length range) and says so in the evidence.', '§4.4 §5 C07',
          NOTE_COMMON + 'Per-datatype specialisation: Avtp_Vss_GetDatatype is replaced by its contract instance at the code (itself enforced on the real getter). Byte-order helpers are inlined (loop-free).', 'CBMC code contracts per datatype + loop contracts on the array loops'),
- 'C08': ('proof', 'Avtp_Vss_GetVssPath, Avtp_Vss_CalcVssPathLength and, per datatype code, Avtp_Vss_GetVssData are enforced on symbolic well-formed messages of exactly their on-wire size: results equal the reference decoding (bit-exact floats, ghost element index), destination NULL => only the length is assigned, destinations are exact-extent so a write past the reported length or a read past the message fails; array loops closed by loop contracts. Known finding: path size of 65534/65535-byte paths wraps the uint16 return type.', '§4.4 §5 C08',
+ 'C08': ('proof', 'Avtp_Vss_GetVssPath, Avtp_Vss_CalcVssPathLength and, per datatype code, Avtp_Vss_GetVssData are enforced on symbolic well-formed messages of exactly their on-wire size: results equal the reference decoding (bit-exact floats, ghost element index), destination NULL => only the length is assigned, destinations are exact-extent so a write past the reported length or a read past the message fails; array loops closed by loop contracts (bounded fallback as for C07 when a loop was rewritten). Known finding: path size of 65534/65535-byte paths wraps the uint16 return type.', '§4.4 §5 C08',
          NOTE_COMMON + 'Round trip follows from encoder and decoder being proved against the same reference encoding.', 'CBMC code contracts per datatype + loop contracts on the array loops'),
- 'C10': ('other', 'BOUNDED stand-in, not a proof: packer, counter and unpacker are enforced against their contracts for lists of at most 3 (quick) / 5 (thorough) strings, every string length symbolic 0..65535, requested counts greater/equal/smaller than the packed count, exact-extent source and destination buffers, loops unwound with unwinding assertions; plus the type-level fact that the counter\'s return type carries every possible count. Prefix-sum offsets cannot be expressed in CBMC loop invariants without quantifiers.', '§5 C10',
+ 'C10': ('other', 'BOUNDED stand-in, not a proof: packer, counter and unpacker are enforced against their contracts for lists of at most 3 (quick) / 5 (thorough) strings, every string length symbolic 0..65535, requested counts greater/equal/smaller than the packed count, exact-extent source and destination buffers, loops unwound with unwinding assertions; plus the counter on arrays of up to 300 empty strings (the more-than-255-strings case) and the type-level fact that the counter\'s return type carries every possible count. Prefix-sum offsets cannot be expressed in CBMC loop invariants without quantifiers.', '§5 C10',
          NOTE_COMMON + 'Bound on the number of strings; lists longer than the bound are not covered.', 'CBMC code contracts with bounded unwinding (unwinding assertions)'),
 
  'C18': ('other', 'The receive paths of ALL SIX example listeners (#included unmodified) are enforced against contracts for ANY datagram and recv result: every pointer/bounds obligation, termination (loop variants for the ACF-CAN message loop and the CRF media-clock search), the listener gives up only if a system call failed (ghost set by the trusted environment contracts), sample / NAL / timestamp queues stay well formed. ACF-CAN, AAF, CVF, CRF: each receive function and helper carries its own contract, is enforced against it and replaced by it in its callers. hello-world (GPC) and ACF-VSS: the receive code is the body of main()\'s while(1); it is closed by a loop contract (one iteration from an arbitrary state of all locals and the buffer) and printf string conversions are checked by an executable model. Library getters are replaced by their contracts, whose exact-extent preconditions turn a length field that reaches past the datagram into a failed call-site obligation. Bounded / assumed parts, stated in the evidence: CRF mclk_dequeue_ts is enforced on queues of depth 1..2 and the induction over loop iterations for the queue abstraction is by hand; fallback obligations (only used when the code was restructured so that a contract no longer attaches) are bounded.', '§5 C18 §13',
